@@ -1,5 +1,6 @@
 //! jlverif: property-based verification harness for Bestowinc/json-logic-rs (see /verif/DESIGN.md).
 pub mod capture;
+pub mod cli;
 pub mod corpus;
 pub mod external;
 pub mod gen;
